@@ -331,7 +331,7 @@ def readable(h):
 
 def plan(tier):
     if tier == "quick":
-        return {"mixed": 140, "evict": 120, "resize": 100, "static": 70, "sensitive": 70}
+        return {"mixed": 130, "evict": 110, "resize": 100, "static": 60, "sensitive": 60}
     return {"mixed": 4000, "evict": 4000, "resize": 3000, "static": 2000, "sensitive": 2000}
 
 
@@ -363,6 +363,13 @@ def judge(rep, c, what):
         rep.violation("failing-input", payload)
         return True
     return False
+
+
+def ensure_model():
+    """Model/HpackEnc.vo has to be consistent with what it imports (Ref/Rfc7541Block.v is shared):
+    rebuild it when stale.  Returns an error log or None."""
+    ok, log, failing = common.coq_make(["Model/HpackEnc.vo"], timeout=900)
+    return None if ok else "make Model/HpackEnc.vo failed (%s)\n%s" % (failing, log[-2000:])
 
 
 def gather(tier, seed):
@@ -402,6 +409,10 @@ def evaluate(tag, streams):
 
 
 def correspond_hpackenc(rep, tier, seed):
+    err = ensure_model()
+    if err:
+        rep.violation("broken-correspondence", {"what": "the encoder model does not compile", "log": err}, no_input=True)
+        return [], []
     streams = gather(tier, seed)
     res, err = evaluate("hpackenc", streams)
     if err:
@@ -446,6 +457,11 @@ def search_hpackenc(rep, tier, seed, reason=None, streams=None, oracle_res=None)
     """Search for a history on which the implementation violates C10, judged by the reference
     decoder and by h2's own decoder.  Returns True when one was reported."""
     if streams is None:
+        err = ensure_model()
+        if err:
+            rep.violation("broken-correspondence", {"what": "the encoder model / oracle does not compile", "log": err},
+                          no_input=True)
+            return False
         p = plan(tier)
         streams = []
         corpus = corpus_inputs()
